@@ -338,6 +338,8 @@ func (s c11Scenario) detectBound() time.Duration {
 		return c11T7
 	case "stallMidFrame":
 		return c11T8 + c11T6
+	case "stallFrameSel":
+		return c11T8 + c11T6
 	case "stallLinktest":
 		return 2 * (c11Linktest + c11T6)
 	case "stallRead":
@@ -387,6 +389,8 @@ func c11Scenarios(c *Ctx) []c11Scenario {
 		// cover each of them (added after seeded change C11a-1 was caught by C04 only)
 		for off := 1; off <= 13; off++ {
 			add(role, lifeBehaviour{Kind: "stallMidFrame", Cut: lifeCut{"", "", off}})
+			// the same inside an established Selected session, where T6/T7 cannot mask a missing T8
+			add(role, lifeBehaviour{Kind: "stallFrameSel", Cut: lifeCut{"", "", off}})
 		}
 	}
 	// every failed-dial run length x backoff configuration, both roles, one representative cut
@@ -569,7 +573,7 @@ func c11RunScenario(s c11Scenario, slack time.Duration) (o c11Outcome) {
 			return
 		}
 		// drive the exchange that is going to fail
-		needSelected := s.Beh.Cut.Exchange == "data" || s.Beh.Cut.Exchange == "linktest" || s.Beh.Kind == "stallLinktest" || s.Beh.Kind == "stallRead"
+		needSelected := s.Beh.Cut.Exchange == "data" || s.Beh.Cut.Exchange == "linktest" || s.Beh.Kind == "stallLinktest" || s.Beh.Kind == "stallRead" || s.Beh.Kind == "stallFrameSel"
 		if needSelected {
 			if !lifeWait(5*time.Second, func() bool { return conn.State() == hsms.SelectedState }) {
 				o.failNote = "first generation never reached Selected"
@@ -691,7 +695,7 @@ func c11ModelScript(s c11Scenario) (string, int) {
 		add("openStartOk")
 		// how far did the failing generation get?
 		switch {
-		case s.Beh.Cut.Exchange == "data" || s.Beh.Cut.Exchange == "linktest" || s.Beh.Kind == "stallLinktest" || s.Beh.Kind == "stallRead":
+		case s.Beh.Cut.Exchange == "data" || s.Beh.Cut.Exchange == "linktest" || s.Beh.Kind == "stallLinktest" || s.Beh.Kind == "stallRead" || s.Beh.Kind == "stallFrameSel":
 			up()
 			add("envDown")
 		case s.Beh.Kind == "noSelect":
